@@ -10,8 +10,8 @@ import (
 )
 
 type gen struct {
-	r        *rand.Rand
-	tmpl     bool // template expression syntax (and, or, not, contains, default, render)
+	r    *rand.Rand
+	tmpl bool // template expression syntax (and, or, not, contains, default, render)
 }
 
 func newGen(r *rand.Rand) *gen { return &gen{r: r} }
@@ -203,6 +203,10 @@ func (g *gen) expr(d int) string {
 		default:
 			return g.pick("T", "pkg.T", "[]int", "map[string]T", "[2]byte", "interface{}", "string") + "(" + g.expr(d-1) + ")"
 		}
+	case 19:
+		// a call whose callee is a parenthesised unary expression: (<-c)(x), (*p)(x), (-f)(x)
+		op := unOps[g.r.Intn(len(unOps))]
+		return "(" + op + g.expr(d-1) + ")(" + g.exprs(d-1, 2) + ")"
 	case 18:
 		if g.tmpl {
 			switch g.r.Intn(3) {
